@@ -762,7 +762,7 @@ func init() {
 	mutant("status-mark-survives-the-block", "response-blocks-in-order", "conn.go", "		hb.statusSeen = false\n", "")
 	mutant("ping-timer-re-armed-after-teardown", "teardown-lets-go", "serverConn.go", "	select {\n	case <-sc.writeStop:\n		return\n	case <-sc.writeGone:\n		return\n	default:\n	}\n\n	sc.pingTimer.Reset(sc.pingInterval)", "	sc.pingTimer.Reset(sc.pingInterval)")
 	mutant("held-responses-left-open-at-teardown", "teardown-lets-go", "serverConn.go", "		for _, strm := range strms {\n			sc.dropResponse(strm)\n		}\n", "")
-	mutant("late-handler-leaves-its-body-open", "teardown-lets-go", "serverConn.go", "			case <-sc.handlerStop:\n				_ = ctx.Response.CloseBodyStream()\n			}\n		}()", "			case <-sc.handlerStop:\n			}\n		}()")
+	mutant("late-handler-leaves-its-body-open", "teardown-lets-go", "serverConn.go", "			case <-sc.handlerStop:\n				closeLeftBody(ctx)\n			}\n		}()", "			case <-sc.handlerStop:\n			}\n		}()")
 	mutant("dropped-response-under-a-running-handler", "teardown-lets-go", "serverConn.go", "	if strm.handlerRunning || strm.ctx == nil {\n		return\n	}\n\n	sc.closeBodyStream(strm)", "	if strm.ctx == nil {\n		return\n	}\n\n	sc.closeBodyStream(strm)")
 }
 
@@ -949,7 +949,7 @@ func init() {
 
 func init() {
 	mutant("preface-read-in-one-go", "server-construction", "http2.go", "io.ReadFull(br, b[:prefaceLen])", "br.Read(b[:prefaceLen])")
-	mutant("late-handler-report-picked-at-random", "teardown-lets-go", "serverConn.go", "			select {\n			case <-sc.handlerStop:\n				// Nobody is left to send the response, or to close a body\n				// stream the handler put in it.\n				_ = ctx.Response.CloseBodyStream()\n\n				return\n			default:\n			}\n\n", "")
+	mutant("late-handler-report-picked-at-random", "teardown-lets-go", "serverConn.go", "			select {\n			case <-sc.handlerStop:\n				// Nobody is left to send the response, or to close a body\n				// stream the handler put in it.\n				closeLeftBody(ctx)\n\n				return\n			default:\n			}\n\n", "")
 	mutant("late-handler-report-not-looked-at-again", "teardown-lets-go", "serverConn.go", "				select {\n				case <-sc.handlerStop:\n					sc.dropReported()\n				default:\n				}\n", "")
 	mutant("abandoned-report-does-not-end-the-connection", "server-loop-shape", "serverConn.go", "				releaseStream(strm)\n\n				// See below: this may have been the last stream a GOAWAY\n				// was waiting for.\n				if isClosing() && canCloseAfterGoAway() {\n					break loop\n				}\n", "				releaseStream(strm)\n")
 	mutant("timeout-arm-does-not-end-the-connection", "server-loop-shape", "serverConn.go", "			// A stream that timed out may have been the last one a GOAWAY\n			// was waiting for.\n			if isClosing() && canCloseAfterGoAway() {\n				break loop\n			}\n", "")
@@ -958,4 +958,14 @@ func init() {
 	mutant("window-overflow-by-settings-accepted", "initial-window-delta", "conn.go", "		if int64(pb.window)+delta > 1<<31-1 {", "		if int64(pb.window)+delta > 1<<32-1 {")
 	mutant("window-overflow-error-not-propagated", "nil-error-not-reported", "conn.go", "		if err := c.applyInitialWindow(int32(st.MaxWindowSize())); err != nil {", "		if err := c.applyInitialWindow(int32(st.MaxWindowSize())); err == nil {")
 	mutant("dropreported-called-with-the-loop-alive", "request-ctx-handoff", "serverConn.go", "			case sc.handlerDone <- strm:\n", "			case sc.handlerDone <- strm:\n				sc.dropReported()\n")
+}
+
+func init() {
+	mutant("write-loop-queues-its-reset-to-itself", "loops-do-not-queue-to-themselves", "conn.go", "				return c.resetStreamNow(id, InternalError)\n", "				c.cancelStream(id, InternalError)\n\n				return nil\n")
+	mutant("write-waits-for-room-only", "client-stuck-writes-bounded", "conn.go", "	case err := <-r.Err:\n", "	case err := <-make(chan error):\n")
+	mutant("control-frame-write-unbounded", "client-stuck-writes-bounded", "conn.go", "	defer c.limitControlWrite()()\n\n	_, err := fr.WriteTo(c.bw)\n	if err == nil {\n		if err = c.bw.Flush(); err != nil {", "	_, err := fr.WriteTo(c.bw)\n	if err == nil {\n		if err = c.bw.Flush(); err != nil {")
+	mutant("control-write-deadline-never-removed", "client-stuck-writes-bounded", "conn.go", "	return func() { _ = c.c.SetWriteDeadline(time.Time{}) }", "	return func() {}")
+	mutant("stream-end-without-headers-is-a-response", "client-stuck-writes-bounded", "conn.go", "	if err == nil && !r.headersDone && c.endsStream(fr) {", "	if err == nil && !r.headersDone && c.endsStream(fr) && false {")
+	mutant("timed-out-context-goes-to-the-pool", "request-ctx-handoff", "serverConn.go", "			strm.handlerRunning = false\n\n			sc.detachTimedOut(strm)\n\n			if strm.abandoned {", "			strm.handlerRunning = false\n\n			if strm.abandoned {")
+	mutant("left-body-closed-under-a-timed-out-handler", "teardown-lets-go", "serverConn.go", "	if ctx.LastTimeoutErrorResponse() == nil {\n		_ = ctx.Response.CloseBodyStream()\n	}", "	_ = ctx.Response.CloseBodyStream()")
 }
